@@ -28,14 +28,22 @@ ExactlyOneOms(t) == \A e \in 1..Len(t.nodes) : TypeOf(t, e) \in Line(t) =>
                         Cardinality({k \in Oms(t) : e \in Interior(t.oms[k])}) = 1
 OnePerEgress(t) == Cardinality(Oms(t)) =
     Cardinality({k \in 1..Len(t.edges) : TypeOf(t, t.edges[k][1]) = "Roadm" /\ TypeOf(t, t.edges[k][2]) \in Line(t)})
+\* "opposite directions are paired".  Opp = the OMS running the other way between the same two ROADMs, Par = the OMS
+\* running the same way (k itself, plus the parallel routes on other degrees of the two ROADMs).  Judged for every
+\* layout: an OMS has a partner exactly when an opposite OMS exists, and the partner is one of them.  Which of several
+\* parallel opposite OMS is the partner is not decided by the property (reversed_oms pairs by end points), so the
+\* pairing is required to be mutual only where neither direction has a parallel route.
+Opp(t, k) == {j \in Oms(t) : From(t.oms[j]) = To(t.oms[k]) /\ To(t.oms[j]) = From(t.oms[k])}
+Par(t, k) == {j \in Oms(t) : From(t.oms[j]) = From(t.oms[k]) /\ To(t.oms[j]) = To(t.oms[k])}
 ReversePaired(t) == \A k \in Oms(t) : LET o == t.oms[k] IN
-    /\ o.rev # 0 => /\ o.rev \in Oms(t)
-                    /\ From(t.oms[o.rev]) = To(o) /\ To(t.oms[o.rev]) = From(o)
-                    /\ t.oms[o.rev].rev = k
-    /\ o.rev = 0 => ~\E j \in Oms(t) : From(t.oms[j]) = To(o) /\ To(t.oms[j]) = From(o)
+    /\ o.rev # 0 => o.rev \in Opp(t, k)
+    /\ o.rev = 0 => Opp(t, k) = {}
+    /\ (o.rev \in Opp(t, k) /\ Cardinality(Par(t, k)) = 1 /\ Cardinality(Opp(t, k)) = 1) => t.oms[o.rev].rev = k
+\* every link of the generated topology (parallel routes included) is one OMS holding that link's elements in order
 ExpectedLinks(t) == \A x \in 1..Len(t.expect) : LET l == t.expect[x] IN
-    /\ Cardinality({k \in Oms(t) : From(t.oms[k]) = l.from /\ To(t.oms[k]) = l.to}) = 1
-    /\ \A k \in Oms(t) : (From(t.oms[k]) = l.from /\ To(t.oms[k]) = l.to) => IsSubSeq(l.must, t.oms[k].els)
+    /\ Cardinality({k \in Oms(t) : From(t.oms[k]) = l.from /\ To(t.oms[k]) = l.to}) =
+           Cardinality({y \in 1..Len(t.expect) : t.expect[y].from = l.from /\ t.expect[y].to = l.to})
+    /\ Cardinality({k \in Oms(t) : From(t.oms[k]) = l.from /\ To(t.oms[k]) = l.to /\ IsSubSeq(l.must, t.oms[k].els)}) = 1
 
 \* ---- B. maps (runs = <<first index, last index, value>> in position order)
 RunsChain(m) == /\ Len(m.runs) >= 1
